@@ -158,6 +158,11 @@ func (g *G) selectStmt() {
 	g.kw("SELECT")
 	g.selectBody()
 	if g.opt() {
+		// memefish implements the trailing comma of a select list before FROM and at the end of the
+		// statement only (EXCLUDED.md); the end-of-statement form is exercised by C11
+		if g.opt() {
+			g.srcOnly(func() { g.p(",") })
+		}
 		g.kw("FROM")
 		g.tableExpr()
 	}
